@@ -73,6 +73,7 @@ HARMLESS = [
      'unit appended before its descendants are released (they are arranged in later passes either way)'),
     ('C02', 'sc3/synth/synthdef.py', "        for ugen in reversed(self._children):\n            # // All ugens with no antecedents are made available.\n            ugen._make_available()",
      "        for ugen in self._children:\n            # // All ugens with no antecedents are made available.\n            ugen._make_available()", 'availability offered first to last (another valid order)'),
+    ('C14', 'sc3/seq/patterns/eventpatterns.py', "                queue.add(now + float(outevent('delta')), stream)", "                child_delta = float(outevent('delta'))\n                queue.add(now + child_delta, stream)", 'local for the child delta in Ppar'),
     ('C13', 'sc3/seq/patterns/listpatterns.py', "            inval = yield from stm.embed(lst[(i + offset) % size], inval)",
      "            item = lst[(i + offset) % size]\n            inval = yield from stm.embed(item, inval)", 'local for the item in Pser'),
 ]
@@ -127,6 +128,10 @@ BREAKING = [
     ('C19', 'sc3/synth/envelope.py', "            contents.append(levels[i + 1])\n            contents.append(times[i])\n            contents.append(type(self)._shape_number(curves[i % len(curves)]))", "            contents.append(levels[i])\n            contents.append(times[i])\n            contents.append(type(self)._shape_number(curves[i % len(curves)]))", 'segment target level off by one'),
     ('C13', 'sc3/seq/patterns/filterpatterns.py', "                    inval = yield local_sum - sum\n                    return inval", "                    inval = yield value\n                    return inval", 'Pconst yields the last value unclipped'),
     ('C18', 'sc3/base/_osclib.py', "    total_size = size + (-size % _BLOB_DGRAM_PAD)", "    total_size = size + (size % _BLOB_DGRAM_PAD)", 'blob padding computed with the wrong sign'),
+    ('C14', 'sc3/seq/patterns/eventpatterns.py', "                    outevent = evt.silent(nexttime - now, inevent)\n                    inevent = yield outevent\n                    now = nexttime", "                    outevent = evt.silent(nexttime - now, inevent)\n                    inevent = yield outevent", 'Ppar clock not advanced after the rest for an ended child'),
+    ('C14', 'sc3/seq/patterns/eventpatterns.py', "                nexttime = queue.peek()[0]\n                outevent['delta'] = nexttime - now", "                nexttime = queue.peek()[0]\n                outevent['delta'] = nexttime", 'Ppar delta is an absolute time'),
+    ('C13', 'sc3/seq/patterns/filterpatterns.py', "                lst = []\n                n = n_stream.next(inval)", "                n = n_stream.next(inval)\n                lst = []", 'Pclump resets its buffer after reading the size'),
+    ('C15', 'sc3/seq/pattern.py', "        self.args = args\n        self._is_event_pattern = (\n            isinstance(a, Pattern) and a.is_event_pattern)", "        self.args = tuple(stm.stream(x) for x in args)\n        self._is_event_pattern = (\n            isinstance(a, Pattern) and a.is_event_pattern)", 'Pnarop casts its operands to streams once'),
 ]
 
 
